@@ -495,6 +495,16 @@ theorem repair_restores {s : State NB} (r : Reachable s) (hne : s.disk.txs ≠ [
   rw [htxn, htx1] at ho
   exact ⟨hs, by rw [htxn, htx1], ho⟩
 
+/-- the boundary case spelled out: when the highest clock is exactly the first clock of the last page (`k * PageSize`,
+    that page holds a single clock value), the repair walk still reaches that page — `k + 1` checks from page 0 restore a
+    corruption in it -/
+theorem repair_restores_last_page_on_boundary {s : State NB} (r : Reachable s) (hne : s.disk.txs ≠ []) (k : Nat)
+    (hk : maxClock s.disk.txs = k * cfg.pageSize) (v : BitVec 256) :
+    let s1 := signalIncorrect (signalIncorrect (restart cfg (corruptDisk s (keyOf cfg.pageSize k) v)))
+    SInv cfg (checkN (k + 1) s1) ∧ (checkN (k + 1) s1).disk.txs = s.disk.txs ∧
+    Observables (checkN (k + 1) s1) s.disk.txs :=
+  repair_restores r hne k (by rw [hk, Nat.mul_div_cancel _ cfg_good.pos]; exact Nat.le_refl k) v
+
 /-! ### the two repaired defects, as statements about the model of the code before the repair -/
 
 /-- the configuration before the repair of `tree.Load` (no reset on an empty shelf) -/
